@@ -26,6 +26,7 @@ MAP = [  # (commit, property, hunt dir, note)
     ("1922a30", "C14", "../hunt3/C14/1", ""),
     ("99d9ba8", "C20", "../hunt3/C20/1", ""), ("5c970bc", "C05", "../hunt3/C06/1", "the demonstration is probabilistic (HashSet order): it runs the canonicalisation several times"),
     ("f0e1e9d", "C08", "../hunt3/C02/1", ""), ("c8771cf", "C08", "../hunt3/C02/3", ""),
+    ("d73c37f", "C16", "../hunt3/C16/1", "the demonstration re-runs itself in a child process on a 2 MiB stack"),
 ]
 
 def sh(cmd, cwd=WT):
